@@ -34,8 +34,10 @@ ASSUMPTIONS = [
     'a dataset counts as given to a viewer from a successful viewer.add_data(d) until viewer.remove_data(d) or dc.remove(d); re-appending it to the collection does not give it back to the viewer',
     'the layer invariant is judged relative to data.subsets: on a tree without the C06 repair a dataset removed and re-appended carries a stray subset of the same group, '
     'and the viewer shows a layer for it like for any other element of data.subsets; that stray subset is attributed to C06 and not reported here',
-    'domain of viewer operations: add_data, remove_data, add_subset of a current subset of a shown dataset; handing a viewer a lone subset of a dataset it does not show, '
-    'or removing the layer of a live subset by hand (remove_subset / remove_layer), are explicit requests not to mirror and are outside the statement',
+    'domain of viewer operations: add_data, remove_data, add_subset of any current subset of a dataset in the collection (also when the viewer does not show that dataset), '
+    'remove_layer of a dataset\'s own layer (its subsets\' layers stay). For datasets that are not given, the subset layers need not be complete but every one of them must be a current '
+    'subset of a dataset in the collection. Removing the layer of a live subset of a GIVEN dataset by hand (remove_subset / remove_layer(subset)) is an explicit request not to mirror, '
+    'and add_subset of a subset whose dataset is not in the collection is API misuse (add_data raises for such a dataset): both outside the statement',
     'collection operations inside hub.delay_callbacks() blocks are used for the pickers only (the collection itself opens such blocks for subset groups; nesting is C07)',
     'explicit selections are assignments of a value (accepted when it is one of the choices, ValueError otherwise); assigning None by hand is echo API, outside the statement',
     'inside an open hub delay block the picker is compared with the model (queued messages) but "choices = filtered attributes" is evaluated when the block closes',
@@ -768,7 +770,7 @@ def stream_viewer_light(R, fixed):
                 # a subset layer without its dataset's layer: left behind by remove_layer(data) / handed over alone
                 [('append', 0), ('append', 1), ('newgroup', 0), ('add', 0, 0), ('rmlayer', 0, 0)],
                 [('append', 0), ('newgroup', 0), ('newgroup', 1), ('addsub', 0, 0, 0, 0)]]
-    depth = R.pick([3, 2, 2, 2, 2], [4, 3, 3, 3, 3])
+    depth = R.pick([3, 2, 2, 2, 2], [3, 3, 3, 3, 3])
     t0 = time.time()
     batch = []
     for prefix, k in zip(prefixes, depth):
@@ -949,7 +951,7 @@ def stream_viewer_mpl(R, fixed):
 
 
 # ====================================================================== pickers
-KIND_CODE = {'numerical': 0, 'datetime': 1, 'categorical': 2}
+KIND_CODE = {'numerical': 0, 'datetime': 1, 'categorical': 2, 'extended': 3}     # 3: a kind none of the three filters admits
 FLAG_NAMES = ['numeric', 'datetime', 'categorical', 'pixel_coord', 'world_coord', 'derived', 'none']
 SEP_CODE = {'Main components': 2, 'Derived components': 3, 'Coordinate components': 4}
 
@@ -991,9 +993,23 @@ class PickerWorld(object):
         self.dinfo = []
         for (d, shape, coords, kinds) in spec:
             kw = {}
-            for j, k in enumerate(kinds):
-                kw['c%d_%d' % (d, j)] = make_values(k, shape, d + j)
-            data = Data(label='d%d' % d, coords=IdentityCoordinates(n_dim=len(shape)) if coords else None, **kw)
+            if 3 in kinds:
+                # RegionData: main components = the two centre components, the ExtendedComponent 'boundary' (kind 'extended'),
+                # then the other columns; kinds must be [0, 0, 3, ...]
+                import shapely
+                from glue.core.data_region import RegionData
+                assert kinds[:3] == [0, 0, 3] and len(shape) == 1
+                for j, k in enumerate(kinds):
+                    if j >= 3:
+                        kw['c%d_%d' % (d, j)] = make_values(k, shape, d + j)
+                geoms = np.array([shapely.Point(float(i), float(2 * i + d)).buffer(1.0 + i) for i in range(shape[0])])
+                data = RegionData(label='d%d' % d, boundary=geoms, **kw)
+                got = [KIND_CODE[data.get_kind(c)] for c in data.main_components]
+                assert got == list(kinds), (got, kinds)
+            else:
+                for j, k in enumerate(kinds):
+                    kw['c%d_%d' % (d, j)] = make_values(k, shape, d + j)
+                data = Data(label='d%d' % d, coords=IdentityCoordinates(n_dim=len(shape)) if coords else None, **kw)
             self.data[d] = data
             main = [(self.cid_id(c), KIND_CODE[data.get_kind(c)]) for c in data.main_components]
             self.dinfo.append((0, [d, (0, [(0, [a, b]) for a, b in main]), (0, []),
@@ -1232,6 +1248,7 @@ class PickerGen(object):
             self.ncid += n
             self.der[d] = []
             self.shape[d] = shape
+        self.region = set(d for (d, shape, coords, kinds) in spec if 3 in kinds)
         self.removed = []
         self.datas = []
         self.in_dc = set(self.main)
@@ -1283,7 +1300,7 @@ class PickerGen(object):
             return ('daddmain', d, c, k)
         if r < 0.73:
             nums = [c for c, k in self.main[d] if k == 0]
-            if not nums:
+            if not nums or d in self.region:      # RegionData.add_component does not take a link (TypeError): no derived components there
                 return ('pflag', rng.randrange(7), rng.random() < 0.5)
             dep = rng.choice(nums)
             c = self.ncid
@@ -1349,6 +1366,8 @@ PICKER_SPECS = [
     [(0, (3,), False, [0, 2]), (1, (3,), False, [0, 0, 1])],
     [(0, (2, 2), True, [0, 2, 0]), (1, (2, 2), False, [2]), (2, (4,), True, [2])],
     [(0, (2, 3), True, [0]), (1, (2, 3), True, [0, 1, 2, 0])],
+    # a dataset with a component of a fourth kind ('extended', glue.core.data_region.RegionData): never to be offered
+    [(0, (3,), False, [0, 0, 3, 0, 2]), (1, (3,), False, [2, 0])],
 ]
 
 
@@ -1436,6 +1455,20 @@ def report_picker(R, spec, flags, defidx, hasdc, ops, orac, corr):
     def pred(o, c):
         return (o is not None) if orac is not None else (c is not None and o is None)
     cur = list(ops)
+    # nothing after the failing step matters: cut there (closing any block left open)
+    first = orac if orac is not None else corr
+    if first is not None and isinstance(first.get('step'), int) and 0 <= first['step'] < len(cur) - 1:
+        cut = cur[:first['step'] + 1]
+        if sum(1 for o in cut if o[0] == 'delaybegin') > sum(1 for o in cut if o[0] == 'delayend'):
+            cut.append(('delayend',))
+        if sum(1 for o in cut if o[0] == 'echobegin') > sum(1 for o in cut if o[0] == 'echoend'):
+            cut.append(('echoend',))
+        try:
+            o, c = run_picker_history(R, spec, flags, defidx, hasdc, cut)
+            if pred(o, c):
+                cur = cut
+        except Exception:
+            pass
     changed = True
     budget = 200
     while changed and budget > 0:
